@@ -285,6 +285,21 @@ Example C14_persistent_keepalive_and_giveup :
   snd b = [OInit] /\ count_init (snd (idle 200 [] (400 * sec) (fst b))) = 60%nat.
 Proof. vm_compute. repeat split; reflexivity. Qed.
 
+(* FINDING (model and device agree, the literal property text does not): when a
+   re-handshake starts while the new-handshake timer of an earlier unanswered
+   send is still pending, that timer expires during the retry sequence; its
+   callback SendHandshakeInitiation(false) resets handshakeAttempts BEFORE the
+   5 s rate limit swallows the initiation, so the sequence has 1 + 20 = 21
+   transmissions (22 when it expires after the third) and the give-up is ~5 s late. *)
+Example C14_new_handshake_timer_resets_attempts :
+  let s1 := fst (step (started 0 (1000 * sec)) (mkev (1000 * sec + 30 * ms) (ITun [1]) (0, 0))) in
+  let r2 := step s1 (mkev (1000 * sec + 50 * ms) IResp (0, 0)) in           (* data 1 sent: timer armed *)
+  let s3 := fst (step (fst r2) (mkev (1000 * sec + 150 * ms) (IShiftKeys (181 * sec)) (0, 0))) in
+  let r4 := step s3 (mkev (1005 * sec + 400 * ms) (ITun [2]) (0, 0)) in       (* key too old: re-handshake *)
+  let r5 := idle 60 [] (1200 * sec) (fst r4) in
+  snd r2 = [OData 1] /\ snd r4 = [OInit] /\ count_init (snd r5) = 20%nat /\ staged (fst r5) = [].
+Proof. vm_compute. repeat split; reflexivity. Qed.
+
 (* the monitor rejects a schedule with a 10 s gap, a 21st transmission, a late keepalive *)
 Example C14_monitor_rejects :
   holdsb 0 0 0 [In (100 * sec) IStart; In (101 * sec) (ITun [1]); Out (101 * sec) OInit;
